@@ -623,6 +623,7 @@ import (
 	"os"
 	"path/filepath"
 	"reflect"
+	"runtime"
 	"runtime/debug"
 	"sort"
 	"strconv"
@@ -1086,8 +1087,13 @@ func (r *runner) run(c call, slot *int32) []reflect.Value {
 	if slot != nil {
 		atomic.StoreInt32(slot, 0)
 	}
+	atomic.AddUint64(&wdProgress, 1)
 	return out
 }
+
+// wdProgress counts completed wrapper calls; the watchdog tells a deadlock (no call completes any
+// more) from a slow machine (calls still complete, only later than planned).
+var wdProgress uint64
 
 // ---------------------------------------------------------------- reading the results (shape of F38)
 
@@ -1320,20 +1326,54 @@ func startWatchdog(scenario string, limit time.Duration, slots []int32) *watchdo
 	go func() {
 		select {
 		case <-w.done:
+			return
 		case <-time.After(limit):
-			var b strings.Builder
-			fmt.Fprintf(&b, "C12-DEADLOCK %s workers did not return within %v;", scenario, limit)
-			for i := range slots {
-				s := atomic.LoadInt32(&slots[i])
-				name := "-"
-				if s > 0 && int(s) <= len(specs) {
-					name = specs[s-1].Name
-				}
-				fmt.Fprintf(&b, " w%d:%s", i, name)
-			}
-			fmt.Println(b.String())
-			os.Exit(3)
 		}
+		// past the planned end: a deadlock only if no wrapper call completes for a whole stall
+		// window (a loaded machine makes the last calls late, it does not stop them); give up
+		// after a hard cap in any case
+		const stall = 20 * time.Second
+		hard := time.Now().Add(5 * time.Minute)
+		for {
+			before := atomic.LoadUint64(&wdProgress)
+			select {
+			case <-w.done:
+				return
+			case <-time.After(stall):
+			}
+			if atomic.LoadUint64(&wdProgress) != before && time.Now().Before(hard) {
+				fmt.Printf("C12-INFO %s late: workers still completing calls after the planned end (slow machine), waiting\n", scenario)
+				continue
+			}
+			break
+		}
+		var b strings.Builder
+		fmt.Fprintf(&b, "C12-DEADLOCK %s workers did not return within %v and no call completed for %v;", scenario, limit, stall)
+		for i := range slots {
+			s := atomic.LoadInt32(&slots[i])
+			name := "-"
+			if s > 0 && int(s) <= len(specs) {
+				name = specs[s-1].Name
+			}
+			fmt.Fprintf(&b, " w%d:%s", i, name)
+		}
+		fmt.Println(b.String())
+		// where everybody is: the frames that matter for a replay
+		buf := make([]byte, 1<<20)
+		n := runtime.Stack(buf, true)
+		kept := 0
+		for _, ln := range strings.Split(string(buf[:n]), "\n") {
+			if strings.HasPrefix(ln, "goroutine ") || strings.Contains(ln, "casbin") || strings.Contains(ln, "sync.(*RWMutex)") || strings.Contains(ln, "sync.(*Mutex)") {
+				if !strings.HasPrefix(ln, "\t") {
+					fmt.Println("C12-STACK " + ln)
+					kept++
+					if kept > 400 {
+						break
+					}
+				}
+			}
+		}
+		os.Exit(3)
 	}()
 	return w
 }
